@@ -599,6 +599,11 @@ class BuiltinMixin(object):
       return [(st, VBool(obj.cls is cls.cls))]
     return [(st, VBool(z3.And(obj.t != 0, st.classof(obj.t) == cls.cls.uid)))]
 
+  def b_class_named(self, st, args, kwargs):
+    """spec: the class object with this (unqualified or dotted-suffix) name, independent of the enclosing module's imports."""
+    name = z3.simplify(args[0].t).as_string()
+    return [(st, VClass(self.ctx.registry.class_named(name)))]
+
   def b_content(self, st, args, kwargs):
     from pyvc.values import VSnap
     d = args[0]
@@ -626,7 +631,8 @@ class BuiltinMixin(object):
   def b_ghost(self, st, args, kwargs):
     name = z3.simplify(args[0].t).as_string()
     if name not in st.ghost:
-      raise Unsupported('ghost variable %s is not set on this path' % name)
+      from pyvc.values import GhostUnset
+      raise GhostUnset('ghost variable %s is not set on this path' % name)
     return [(st, st.ghost[name])]
 
   def b_alive(self, st, args, kwargs):
